@@ -335,7 +335,13 @@ def run(ctx):
     budget = 60 if ctx.quick else 300
     for name in names:
         sel = fam.select(pool, 10 if ctx.quick else 30, ctx.seed + 17, name) + small[:3]
-        units.append(('limit', name, list(dict.fromkeys(sel)), ctx.seed, budget * 2, 40 if ctx.quick else 80))
+        sel = list(dict.fromkeys(sel))
+        if ctx.quick:
+            units.append(('limit', name, sel, ctx.seed, budget * 2, 40))
+        else:
+            # chunks of <= 6 arguments (one slow logic must not become the tail of the whole run)
+            for c in range(0, len(sel), 6):
+                units.append(('limit', name, sel[c:c + 6], ctx.seed, 240, 60))
     time_logics = ['CPL', 'FDE', 'K3', 'K', 'S4', 'S5FDE', 'D', 'KK3WQ']
     if not ctx.quick:
         time_logics = list(dict.fromkeys(time_logics + names[::3]))
@@ -385,7 +391,7 @@ def run(ctx):
         states=paths, transitions=trans, traces_validated_against_impl=0,
         samples=list(kinds.values())[:3], units=nunits,
         bounds=dict(step_limit='k over all integers, one class per prefix; 13 arguments per logic (quick), '
-                               'proofs of natural length <= 40 (quick) / 80 steps; thorough: 33 arguments per logic',
+                               'proofs of natural length <= 40 (quick) / 60 steps; thorough: 33 arguments per logic',
                     time_limit='T over all integers; clock = arbitrary non-decreasing instants; proofs <= 60 steps; '
                                f'{len(time_logics)} logics x small arguments, without and with countermodels '
                                '(with: some schedule must raise the timeout inside finish())',
